@@ -19,13 +19,13 @@ from ..graphs import MonitoredGraph, snapshot, same_snapshot
 from ..stats import two_stage, binom_pmf
 
 ID = "C18"
-RULE = ("graphs: G(n,p) n<=60 (6%: 260..700 vertices) incl. edgeless and disconnected ones, trees, cycles, complete graphs, stars, unions of many components of assorted sizes in arbitrary order; phi on a grid "
+RULE = ("graphs: G(n,p) n<=60 (6%: 260..700 vertices) incl. edgeless and disconnected ones, trees, cycles, complete graphs, stars, unions of many components of assorted sizes in arbitrary order; vertex labels ints, strings (20%) or of mixed type - int / str / tuple / float / frozenset in one graph (15%; half of the star samples have a string hub); phi on a grid "
         "{0, 0.05, .15, .3, .5, .7, .8, .95, 1} + random; seeded draws and scripted draws (all 0.0 / all 1-2^-53); statistical cases: star with "
         "12 leaves and two disjoint stars with 6 leaves each at phi in {.15,.5,.8}, and a MultiGraph star whose leaves hang on two parallel edges each (phi in {.3,.6}); non-trivial = >= 2 edges and 0 < phi < 1; "
         "distinct = SHA-1 of (graph, phi, schedule)")
 ASSUMPTIONS = ["per-edge exactness needs the draw pattern 'one random.random() per edge of the copy, in edge order' (observed per run; otherwise only the "
                "structural and statistical clauses decide)", "chi-square two-stage protocol"]
-HEADLINE = ["calls", "per_edge_exact_checks", "edges_decided", "structure_checks", "phi0_checks", "phi1_checks", "scripted_zero", "scripted_one",
+HEADLINE = ["graphs_with_labels_of_mixed_type", "calls", "per_edge_exact_checks", "edges_decided", "structure_checks", "phi0_checks", "phi1_checks", "scripted_zero", "scripted_one",
             "input_events", "repercolations_after_in_place_edit", "star_samples", "two_star_samples", "multigraph_star_samples", "chi2_tests", "chi2_escalations", "draw_pattern_missing"]
 REQUIRED = {t: {"structure_checks": 200, "phi0_checks": 10, "phi1_checks": 10, "scripted_zero": 10, "scripted_one": 10,
                 "star_samples": 4000, "two_star_samples": 4000, "multigraph_star_samples": 4000} for t in ("quick", "thorough")}
@@ -78,8 +78,17 @@ def make_graph(rng):
     else:
         g = nx.empty_graph(1)
     # relabel sometimes to non-contiguous / non-int ids
-    if rng.random() < 0.2:
+    r = rng.random()
+    if r < 0.2:
         g = nx.relabel_nodes(g, {v: "v%d" % v for v in g.nodes()})
+    elif r < 0.35:
+        # vertex labels are arbitrary hashables and need not share a type: strings next to ints, tuples (grid coordinates), frozensets
+        kinds = rng.sample(["int", "str", "tuple", "float", "frozenset"], rng.randint(2, 3))
+        def lab(v):
+            t = kinds[v % len(kinds)]
+            return v if t == "int" else "n%d" % v if t == "str" else (v, v + 1) if t == "tuple" else v + 0.5 if t == "float" else frozenset([v, -1])
+        g = nx.relabel_nodes(g, {v: lab(v) for v in g.nodes()})
+        g.graph["mixed_labels"] = True
     if rng.random() < 0.5:
         h = nx.Graph()
         ns = list(g.nodes()); rng.shuffle(ns)
@@ -156,6 +165,8 @@ def run_case(case):
     if case["kind"] == "graph":
         kind, g = make_graph(rng)
         N, E = g.number_of_nodes(), g.number_of_edges()
+        if g.graph.get("mixed_labels"):
+            res.count("graphs_with_labels_of_mixed_type")
         ctx0 = {"graph_kind": kind, "n": N, "edges": [tuple(e) for e in list(g.edges())[:30]]}
         full = largest_fraction(list(g.nodes()), list(g.edges()))
         nt = False
@@ -231,6 +242,8 @@ def run_case(case):
     elif case["kind"] == "star":
         M = 12
         g = nx.star_graph(M)
+        if case["seed"] % 2:
+            g = nx.relabel_nodes(g, {0: "hub"})      # labels of mixed type
         pm = binom_pmf(M, phi)
         expected = {k: pm[k] for k in range(M + 1)}
         N = M + 1
